@@ -197,25 +197,88 @@ def exec (s : St) : List Act → St
   | [] => s
   | a :: as => exec ((step s a).getD s) as
 
-/-- breadth-first closure of a state set under all actions, with fuel -/
-def expand (seen : List St) (frontier : List St) : List St × List St :=
-  frontier.foldl (fun (acc : List St × List St) s =>
-    acts.foldl (fun (acc : List St × List St) a =>
+/-! ### numeric encoding of protocol states (mixed radix), used for the reachability certificate -/
+
+def LPc.code : LPc → Nat
+  | .none => 0 | .r0a => 1 | .r0b => 2 | .r1a => 3 | .r1b => 4 | .rDo => 5 | .r3a => 6 | .r3b => 7
+  | .slp => 8 | .f1 => 9 | .f2 => 10 | .f3 => 11 | .f4 => 12 | .dead => 13
+
+def LPc.fromNat : Nat → LPc
+  | 0 => .none | 1 => .r0a | 2 => .r0b | 3 => .r1a | 4 => .r1b | 5 => .rDo | 6 => .r3a | 7 => .r3b
+  | 8 => .slp | 9 => .f1 | 10 => .f2 | 11 => .f3 | 12 => .f4 | _ => .dead
+
+def b2n (b : Bool) : Nat := if b then 1 else 0
+def n2b (n : Nat) : Bool := n % 2 == 1
+
+def CPc.code : CPc → Nat
+  | .idle => 0
+  | .stop1 f w => 1 + 2 * b2n f + b2n w
+  | .stop2 f w => 5 + 2 * b2n f + b2n w
+  | .stop3 f w => 9 + 2 * b2n f + b2n w
+  | .stop4 f w => 13 + 2 * b2n f + b2n w
+  | .wake1 => 17 | .start1 => 18 | .start2 => 19 | .start3 => 20 | .start4 => 21 | .start5 => 22 | .wait1 => 23
+
+def CPc.fromNat (n : Nat) : CPc :=
+  if n == 0 then .idle
+  else if n < 5 then .stop1 (n2b ((n - 1) / 2)) (n2b (n - 1))
+  else if n < 9 then .stop2 (n2b ((n - 5) / 2)) (n2b (n - 5))
+  else if n < 13 then .stop3 (n2b ((n - 9) / 2)) (n2b (n - 9))
+  else if n < 17 then .stop4 (n2b ((n - 13) / 2)) (n2b (n - 13))
+  else if n == 17 then .wake1 else if n == 18 then .start1 else if n == 19 then .start2
+  else if n == 20 then .start3 else if n == 21 then .start4 else if n == 22 then .start5 else .wait1
+
+def Intr.code : Intr → Nat | .absent => 0 | .clear => 1 | .set => 2
+def Intr.fromNat : Nat → Intr | 0 => .absent | 1 => .clear | _ => .set
+
+/-- radices: lpc 14, cpc 24, stopping 2, shutdown 2, stopped 2, intr 3, doneInc 3, quiesced 2, finalLive 2,
+    finalized 2, bad 5 -/
+def encode (s : St) : Nat :=
+  ((((((((((min s.bad 4) * 2 + b2n s.finalized) * 2 + b2n s.finalLive) * 2 + b2n s.quiesced) * 3 + s.doneInc.val) * 3
+    + s.intr.code) * 2 + b2n s.stopped) * 2 + b2n s.shutdown) * 2 + b2n s.stopping) * 24 + s.cpc.code) * 14 + s.lpc.code
+
+def decode (n : Nat) : St :=
+  let lpc := LPc.fromNat (n % 14); let n := n / 14
+  let cpc := CPc.fromNat (n % 24); let n := n / 24
+  let stopping := n2b n; let n := n / 2
+  let shutdown := n2b n; let n := n / 2
+  let stopped := n2b n; let n := n / 2
+  let intr := Intr.fromNat (n % 3); let n := n / 3
+  let d := n % 3; let n := n / 3
+  let quiesced := n2b n; let n := n / 2
+  let finalLive := n2b n; let n := n / 2
+  let finalized := n2b n; let n := n / 2
+  { lpc, cpc, stopping, shutdown, stopped, intr, doneInc := ⟨d, Nat.mod_lt _ (by decide)⟩, quiesced, finalLive, finalized,
+    bad := n }
+
+/-- breadth-first closure under all actions (used by the driver to *produce* the certificate; the
+    certificate is then checked by the kernel, so this search is not trusted) -/
+def expand (seen : List Nat) (frontier : List St) : List Nat × List St :=
+  frontier.foldl (fun (acc : List Nat × List St) s =>
+    acts.foldl (fun (acc : List Nat × List St) a =>
       match step s a with
       | none => acc
-      | some t => if acc.1.contains t then acc else (t :: acc.1, t :: acc.2)) acc) (seen, [])
+      | some t => if acc.1.contains (encode t) then acc else (encode t :: acc.1, t :: acc.2)) acc) (seen, [])
 
-def bfs : Nat → List St → List St → List St
+def bfs : Nat → List Nat → List St → List Nat
   | 0, seen, _ => seen
   | k+1, seen, frontier =>
     if frontier.isEmpty then seen else
       let (seen', fr') := expand seen frontier
       bfs k seen' fr'
 
-def reachable : List St := bfs 200 [init] [init]
+def reachableCodes : List Nat := bfs 500 [encode init] [init]
 
-def closedUnder (S : List St) : Bool :=
-  S.all (fun s => acts.all (fun a => match step s a with | none => true | some t => S.contains t))
+def maskOf (codes : List Nat) : Nat := codes.foldl (fun m c => m ||| (1 <<< c)) 0
+
+/-- the certificate check: every listed code decodes to a state all of whose successors are listed
+    and round-trip through the encoding -/
+def closedCodes (codes : List Nat) : Bool :=
+  let mask := maskOf codes
+  codes.all (fun c =>
+    let s := decode c
+    acts.all (fun a => match step s a with
+      | none => true
+      | some t => mask.testBit (encode t) && decide (decode (encode t) = t)))
 
 /-! ## Part C — notification queue -/
 
